@@ -55,8 +55,10 @@ MANIFEST = dict(
     ref='DESIGN 5/C23',
     note='trusted: the schoolbook reference mc/ref/polys.py (self-checking against the laws of the statement); finite declared '
          'domain; large primes only through the boundary alphabet; the list representation at p = 2 is a driver-made subclass of '
-         'gfpx.Polynomial; a zero modulus is only exercised where an error is raised by design (divmod, //, %, invert). Deviations '
-         'that are merely "result congruent but not reduced" in powmod get their own keys (n=1, n=0 with constant modulus).')
+         'gfpx.Polynomial; a zero modulus is only exercised where an error is raised by design (divmod, //, %, invert). Recorded '
+         'known class C23:call:x-multiple-of-p (integer representation, even x, constant term 1): the fallback law "returns 0" is '
+         'enforced there, any other evaluation error is C23:call:wrong. powmod results that are congruent but not reduced keep '
+         'their own (no longer expected) keys.')
 
 
 # -- harness helpers: deterministic examples, hang guard -----------------------------------
@@ -626,9 +628,11 @@ def check_unary(part, cx, a):
     chk('rshift:classmethod', ev(lambda: K.rshift(list(a), 1)), a[1:])
     xs = sorted(set(range(-p - 1, 2 * p + 2))) if p <= 7 else sorted({-p - 1, -p, -2, -1, p, p + 1, 2 * p - 1} | set(alphabet(p)))
     for x in xs:
-        # class of the argument: multiples of p evaluate to the constant term
-        chk('call:x-multiple-of-p' if x % p == 0 else 'call', ev(lambda: A(x)), R.evaluate(a, x % p, p),
-            lambda r: f'a({x}) = {r!r}')
+        # recorded known class: the integer representation returns 0 at even x although the constant term is 1;
+        # inside that class the fallback law is "returns 0"; everything else is an ordinary violation
+        got, exp = ev(lambda: A(x)), R.evaluate(a, x % p, p)
+        known = cx.binary and x % 2 == 0 and bool(a) and a[0] == 1 and got == 0 and type(got) is int
+        chk('call:x-multiple-of-p' if known else 'call:wrong', got, exp, lambda r: f'a({x}) = {r!r}')
     chk('monic', ev(lambda: A.monic()), R.monic(a, p))
     chk('monic:lc_pinv', ev(lambda: A.monic(lc_pinv=True)), (R.monic(a, p), R.inv_mod(a[-1], p) if a else 0))
     chk('reverse', ev(lambda: A.reverse()), R.reverse(a))
